@@ -14,9 +14,8 @@
 Recorded defects of the pinned tree (generator avoids the trigger, witness in corpus/C18/finding_<key>.json,
 line in findings.d/C18.txt).  Trigger predicates are evaluated on the Python mirror (iospec_mirror.Mirror.trigger):
   dup            new_pandas/new_module of a value that already has a spec in that model (D26)
-  rebind_same    x = v / new_pandas(x, .., v) where x is the only reference to v (spec deleted)
+  (rebind_same and stale_derived are repaired in /repo: their former triggers are generated again)
   update_bound   update_pandas(old, new) with new already referenced in the model
-  stale_derived  rebinding a name in a base while one sub overrides it and a later sub derives it
   sheet_none     spec.sheet = None in an excel file shared with other specs
   sheet_to_none  spec.sheet = None on a spec created with a sheet name (read_args keeps sheet_name=None)
   read_override  (round trip only) two spaces define one name and share a sub space: read_model fails
@@ -35,7 +34,7 @@ ASSUMPTIONS = [
     "(compared after every operation by the tie)",
     "names/paths/sheets/values are abstracted to numbers; value kinds (DataFrame/Series, module, other) are carried by the operation",
     "file I/O of pandas/openpyxl/importlib (write_model/read_model round trip) is checked on the implementation only",
-    "generated histories avoid the recorded defects' triggers (dup, rebind_same, update_bound, stale_derived, scalar, delspace, "
+    "generated histories avoid the recorded defects' triggers (dup, update_bound, scalar, delspace, "
     "emptysheet, abspath, read_override, sheet_none, sheet_to_none) and never touch a closed model",
 ]
 SP_NAMES = [10, 11, 12]
